@@ -7,11 +7,13 @@ statement by statement into a Lean state transformer over
     slot  : Slot α = Option (Option α)   the attribute `value` of the CALLING thread's namespace in `self.__store`
                                          (`none` = no such attribute; a Python value is `Option α`, `none` = `None`)
     calls : Nat                          how often `self.__default_provider` of this instance was called so far
-                                         (`default_provider k` = what its k-th call returns: providers may be
-                                         stateful, `lambda: deque()` returns a new object each time)
+                                         (`default_provider k` = what its k-th call does: `some v` = returns `v`,
+                                         `none` = raises; providers may be stateful, `lambda: deque()` returns a new
+                                         object each time)
 
-with result `Option (Slot α × Nat × R)`; `none` = the method raises (AttributeError: `del` / read of an attribute
-the thread's namespace does not have).  Statement / expression vocabulary (anything else is Untranslatable — never
+with result `Slot α × Nat × Option R`: the state when the method is left and `some r` = it returns `r`, `none` = an
+exception leaves it (AttributeError: `del` / read of an attribute the thread's namespace does not have; or the
+provider's own exception, which `get` does not catch).  Statement / expression vocabulary (anything else is Untranslatable — never
 guessed):
 
     x = E | self.__store.value = E | del self.__store.value | if C: .. [else: ..] | return [E] |
@@ -89,7 +91,9 @@ class TL:
         return x + '_' if x in ('get', 'set', 'clear') else x
 
     def done(self, value):
-        return 'some (slot, calls, %s)' % value
+        return '(slot, calls, some %s)' % value
+
+    RAISE = '(slot, calls, none)'
 
     def fall_off(self):
         if self.ret_kind == 'unit':
@@ -123,22 +127,25 @@ class TL:
             if isinstance(t, ast.Name):
                 self.locals.add(t.id)
                 if isinstance(v, ast.Call) and ast.unparse(v) == 'self.__default_provider()':
-                    return [p + 'let %s := default_provider calls' % self.name(t.id),
-                            p + 'let calls := calls + 1'] + self.block(rest, ind)
+                    return [p + 'match default_provider calls with',
+                            p + '| none => (slot, calls + 1, none)   -- the provider raises: its exception leaves the method',
+                            p + '| some %s =>' % self.name(t.id),
+                            p + '  let calls := calls + 1'] + self.block(rest, ind + 1)
                 if is_store_attr(v):
                     # reading an attribute the namespace does not have raises AttributeError
-                    return [p + 'match slot with', p + '| none => none', p + '| some %s =>' % self.name(t.id)] + \
+                    return [p + 'match slot with', p + '| none => ' + self.RAISE, p + '| some %s =>' % self.name(t.id)] + \
                         self.block(rest, ind + 1)
                 return [p + 'let %s := %s' % (self.name(t.id), self.val(v))] + self.block(rest, ind)
             if is_store_attr(t):
                 return [p + 'let slot : Slot α := some %s' % self.val(v)] + self.block(rest, ind)
         if isinstance(s, ast.Delete) and len(s.targets) == 1 and is_store_attr(s.targets[0]):
-            return [p + 'match slot with', p + '| none => none   -- AttributeError',
+            return [p + 'match slot with', p + '| none => ' + self.RAISE + '   -- AttributeError',
                     p + '| some _ =>', p + '  let slot : Slot α := none'] + self.block(rest, ind + 1)
         if isinstance(s, ast.Expr) and isinstance(s.value, ast.Call) and ast.unparse(s.value.func) == 'self.set' \
                 and len(s.value.args) == 1 and not s.value.keywords:
-            return [p + 'match tlSet default_provider %s calls slot with' % self.val(s.value.args[0]), p + '| none => none',
-                    p + '| some (slot, calls, _) =>'] + self.block(rest, ind + 1)
+            return [p + 'match tlSet default_provider %s calls slot with' % self.val(s.value.args[0]),
+                    p + '| (slot, calls, none) => (slot, calls, none)',
+                    p + '| (slot, calls, some _) =>'] + self.block(rest, ind + 1)
         if isinstance(s, ast.If):
             saved = set(self.locals)
             a = self.block(list(s.body) + rest, ind + 1)
@@ -174,8 +181,8 @@ def method(cls, name, lean_name, extra_params, ret_kind, ret_type, doc, prop=Non
     body = tl.block(strip_doc(f.body), 1)
     sig = ' '.join('(%s : Option α)' % tl.name(pn) for pn, _ in extra_params)
     return ('/-- %s -/\n' % doc +
-            'def %s {α : Type} (default_provider : Nat → Option α) %s(calls : Nat) (slot : Slot α) : '
-            'Option (Slot α × Nat × %s) :=\n' % (lean_name, sig + ' ' if sig else '', ret_type) +
+            'def %s {α : Type} (default_provider : Nat → Option (Option α)) %s(calls : Nat) (slot : Slot α) : '
+            'Slot α × Nat × Option (%s) :=\n' % (lean_name, sig + ' ' if sig else '', ret_type) +
             '\n'.join(body) + '\n')
 
 
